@@ -1087,6 +1087,10 @@ def call_asyncio(it, name, args, kwargs):
             return Coro(run_wait_first, label="wait")
 
         def run_wait():
+            # the timeouts handed to asyncio.wait are recorded when the contract declares the ghost list `wait_timeouts`
+            wlog = getattr(it.engine, "spec_locals", {}).get("wait_timeouts")
+            if wlog is not None:
+                it.ctx.deref(wlog).items.append(timeout)
             done, pending = [], []
             for t in tasks:
                 h = it.ctx.deref(t)
